@@ -1,8 +1,8 @@
 (* Arc-length queries and refinement: Polyline.segment_lengths / total_length / path_centroid / point_along_path /
    subdivided_by_length / with_segments_bisected (polliwog/polyline/_polyline_object.py) and
    path_centroid / subdivide_segment / subdivide_segments (polliwog/segment/_segment_functions.py).
-   point_along_path and with_segments_bisected are modelled WITH the proposed repairs
-   fixes/C08-point-along-path-end.diff and fixes/C08-bisect-empty.diff applied. *)
+   point_along_path, with_segments_bisected and the index maps of with_insertions are modelled as repaired by the /repo
+   commits b4dc017 (f = 1), b67c153 / 9cca2eb (empty index array / plain empty list) and 9e3d823 (index maps). *)
 From Coq Require Import ZArith List Bool.
 From PW Require Import Num Vec NpList Result.
 From PW.model Require Import M_polyline_base M_segment M_polyline_nearest.
